@@ -438,6 +438,88 @@ func runScenario(d *driver, kind string) {
 		} else {
 			d.stats["tamperfull-refused"]++
 		}
+	case "midround":
+		// submitters interleaved with every phase of a sequencing round of the SAME instance: the
+		// sequencer is held right before its k-th storage operation of the round (clock, staging
+		// upload, compare-and-swap, each tile upload, checkpoint upload, discard) while entries that
+		// are being sequenced, entries already acknowledged and new entries are (re)submitted
+		li := d.boot([]int{0, 0, 3}[d.r.Intn(3)])
+		d.submitSome(li, 2+d.r.Intn(3))
+		d.round(li)
+		d.round(li)
+		for rep := 0; rep < 3 && d.alive(li); rep++ {
+			before := len(d.recent)
+			d.submitSome(li, 1+d.r.Intn(3))
+			d.w.mu.Lock()
+			li.in.holdAt = li.in.nops + d.r.Intn(7)
+			d.w.mu.Unlock()
+			if d.r.Intn(3) == 0 {
+				li.in.plan = d.planRandom(0.15)
+			}
+			d.releaseTick(li)
+			d.waitQuiet(li)
+			d.w.mu.Lock()
+			held := li.in.held
+			d.w.mu.Unlock()
+			if held {
+				d.stats["midround-held"]++
+				for k, e := range d.recent {
+					// in sequencing right now (k >= before), or acknowledged earlier
+					if (k >= before-2 && d.r.Intn(2) == 0) || d.r.Intn(6) == 0 {
+						d.submit(li, e, d.r.Intn(4) == 0)
+					}
+				}
+				d.submitSome(li, 1+d.r.Intn(2))
+			}
+			d.w.mu.Lock()
+			li.in.holdAt = -1
+			li.in.held = false
+			d.w.cond.Broadcast()
+			d.w.mu.Unlock()
+			d.waitQuiet(li)
+			d.sync()
+			li.in.plan = nil
+			if d.alive(li) {
+				d.round(li)
+			}
+		}
+	case "straddle":
+		// a tick and a whole round of the same instance land while a submitter is inside its issuer
+		// upload: the submission belongs to the pool that is current when it reaches the mutex
+		li := d.boot(0)
+		d.submitSome(li, 1+d.r.Intn(3))
+		d.round(li)
+		d.round(li)
+		for rep := 0; rep < 3 && d.alive(li); rep++ {
+			d.submitSome(li, d.r.Intn(3))
+			e := d.newEntry()
+			fresh := make([]byte, 12+d.r.Intn(20))
+			d.r.Read(fresh)
+			e.Issuers = append(e.Issuers, fresh)
+			d.w.mu.Lock()
+			li.in.holdIssuer = true
+			d.w.mu.Unlock()
+			done := make(chan struct{})
+			go func() { d.submitOpt(li, e, false, false); close(done) }()
+			d.w.mu.Lock()
+			for !li.in.subHeld && !li.in.dead {
+				d.w.cond.Wait()
+			}
+			d.w.mu.Unlock()
+			d.stats["straddle-held"]++
+			d.round(li) // pools rotate, the round runs to the end
+			if d.r.Intn(2) == 0 {
+				d.round(li)
+			}
+			d.w.mu.Lock()
+			li.in.holdIssuer = false
+			d.w.cond.Broadcast()
+			d.w.mu.Unlock()
+			<-done
+			d.sync()
+			d.round(li)
+			d.round(li)
+		}
 	case "storm":
 		d.storm()
 	case "recompute":
